@@ -222,6 +222,31 @@ pub fn admin(ex: &mut Exec, a: &AdminOp, pending: bool) {
 			}
 		},
 	}
+	// 1b. nothing of the affected column may be left on disk
+	if let Some(c) = affected {
+		let c = if c == usize::MAX { new_kinds.len() } else { c };
+		let is_new = matches!(a, AdminOp::AddColumn(_));
+		if !is_new {
+			let left: Vec<String> = simdisk::muted(|| {
+				std::fs::read_dir(&dir)
+					.map(|rd| {
+						rd.filter_map(|e| e.ok())
+							.filter_map(|e| e.file_name().into_string().ok())
+							.filter(|n| {
+								n.starts_with(&format!("table_{c:02}_")) ||
+									n.starts_with(&format!("index_{c:02}_")) ||
+									n.starts_with(&format!("refcount_{c:02}_"))
+							})
+							.collect()
+					})
+					.unwrap_or_default()
+			});
+			if !left.is_empty() {
+				ex.push_violation("C17", "column-files-left", format!("after {:?} the files {:?} of column {c} are still there", a, left));
+				return
+			}
+		}
+	}
 	// 2. the model: other columns unchanged, affected column empty / new / gone
 	let transform = |cols: &Vec<ColModel>| -> Vec<ColModel> {
 		let mut v = cols.clone();
